@@ -509,6 +509,7 @@ func (f *FnVC) finish() {
 	for _, r := range f.returns {
 		f.atReturn(r.st, r.rs, r.ret, r.names)
 	}
+	f.frameObligation()
 	for _, ac := range append(append([]*spec.AtCall{}, f.Ct.AtCalls...), f.Ct.AtStores...) {
 		if f.acMatched[ac] == 0 {
 			o := &Obligation{Name: fmt.Sprintf("%s/site@%s#%d", f.Short, ac.Pattern, ac.Ordinal), Kind: "site", Func: f.Short,
